@@ -366,13 +366,16 @@ Proof.
   - injection H as -> ->. rewrite N.eqb_refl. cbn [andb]. now apply IH.
 Qed.
 
+Lemma validates_diff_present : validates_diff = true.
+Proof. reflexivity. Qed.
+
 Lemma whole_document_correct : forall old new,
-  let es := if text_eqb old new then [] else [to_range rk_new (replace_cr (replace_crlf old)) new] in
+  let es := replace_document old new in
   apply_edits old es = Some new /\ in_range old es /\ ordered_disjoint old es.
 Proof.
   intros old new es.
   assert (A : apply_edits old es = Some new).
-  { subst es. destruct (text_eqb old new) eqn:E.
+  { subst es. unfold replace_document. destruct (text_eqb old new) eqn:E.
     - apply text_eqb_eq in E. subst new. reflexivity.
     - unfold apply_edits, to_range. cbn [resolve_all]. unfold resolve. cbn [e_start e_end e_new rk_new fst snd].
       fold (norm old). rewrite (offset_of_end old).
@@ -390,14 +393,31 @@ Section Handler.
   Variable format : text -> text.
   Variable diagnostic : Type.
 
-  Lemma get_text_edits_correct : forall old new, partitions (diff old new) old new ->
+  (* no assumption about the diff: chunks that do not add up to both texts are not used *)
+  Lemma get_text_edits_correct : forall old new,
     apply_edits old (get_text_edits diff old new) = Some new /\
     in_range old (get_text_edits diff old new) /\ ordered_disjoint old (get_text_edits diff old new).
   Proof.
-    intros old new [Ho Hn]. unfold get_text_edits. rewrite cr_branch_present. cbn [andb].
+    intros old new. unfold get_text_edits. rewrite cr_branch_present, validates_diff_present. cbn [andb].
     change (contains cr_char old) with (has_cr old). destruct (has_cr old) eqn:H.
     - apply whole_document_correct.
-    - rewrite <- Ho in H. pose proof (edits_correct _ H) as E. rewrite Ho, Hn in E. exact E.
+    - cbv zeta. unfold is_partition. destruct (text_eqb (old_of (diff old new)) old) eqn:Ho; cbn [andb negb].
+      + destruct (text_eqb (new_of (diff old new)) new) eqn:Hn; cbn [negb].
+        * apply text_eqb_eq in Ho, Hn. rewrite <- Ho in H. pose proof (edits_correct _ H) as E.
+          rewrite Ho, Hn in E. exact E.
+        * apply whole_document_correct.
+      + apply whole_document_correct.
+  Qed.
+
+  (* when the diff does partition the texts (and there is no CR) the answer is the chunk-wise one *)
+  Lemma get_text_edits_chunkwise : forall old new, partitions (diff old new) old new -> has_cr old = false ->
+    get_text_edits diff old new = gte rk_new (diff old new).
+  Proof.
+    intros old new [Ho Hn] H. unfold get_text_edits. change (contains cr_char old) with (has_cr old). rewrite H.
+    rewrite andb_false_r. cbv zeta. unfold is_partition.
+    replace (text_eqb (old_of (diff old new)) old) with true by (symmetry; now apply text_eqb_eq).
+    replace (text_eqb (new_of (diff old new)) new) with true by (symmetry; now apply text_eqb_eq).
+    cbn [andb negb]. rewrite andb_false_r. reflexivity.
   Qed.
 
   Lemma guard : forall (error : list diagnostic) codegen, error <> [] ->
@@ -405,11 +425,11 @@ Section Handler.
   Proof. intros [|d e] cg H; [congruence|reflexivity]. Qed.
 
   Lemma formatting_reproduces : forall (error : list diagnostic) old,
-    error = [] -> partitions (diff old (format old)) old (format old) ->
+    error = [] ->
     exists es, do_formatting diff format diagnostic error (Some (Some old)) = Some es /\
                apply_edits old es = Some (format old) /\ in_range old es /\ ordered_disjoint old es.
   Proof.
-    intros error old -> P. eexists. split; [reflexivity|]. now apply get_text_edits_correct.
+    intros error old ->. eexists. split; [reflexivity|]. apply get_text_edits_correct.
   Qed.
 
   Lemma on_type_same : forall (error : list diagnostic) codegen p ch,
@@ -440,12 +460,16 @@ Proof.
   rewrite old_of_cons, new_of_cons, IH; auto.
 Qed.
 
+Lemma replace_document_same : forall old, replace_document old old = [].
+Proof. intro old. unfold replace_document. replace (text_eqb old old) with true by (symmetry; now apply text_eqb_eq). reflexivity. Qed.
+
 Lemma already_formatted : forall (diff : text -> text -> list chunk) old,
   forallb is_equal (diff old old) = true -> get_text_edits diff old old = [].
 Proof.
   intros diff old H. unfold get_text_edits.
-  replace (text_eqb old old) with true by (symmetry; now apply text_eqb_eq).
-  destruct (whole_document_on_cr && contains cr_char old); [reflexivity|]. now apply gte_nil_iff.
+  destruct (whole_document_on_cr && contains cr_char old); [apply replace_document_same|]. cbv zeta.
+  destruct (validates_diff && negb (is_partition (diff old old) old old)); [apply replace_document_same|].
+  now apply gte_nil_iff.
 Qed.
 
 (* without the whole-document branch the chunk-wise edits are wrong for CR LF buffers: the formatter turns CR LF
@@ -614,4 +638,13 @@ Proof.
     replace (last_delete (pre' ++ [Delete x])) with (Some x); [exact E|].
     induction pre' as [|c r IH]; [reflexivity|]. cbn [app last_delete]. destruct (r ++ [Delete x]) eqn:Q; [destruct r; discriminate|].
     exact IH.
+Qed.
+
+(* chunks as dissimilar 1.0.3 returns them for old = "a\U+1F600\U+1F980" / new = "a\U+1F600\n\U+1F980": the second astral character
+   is deleted and never inserted *)
+Lemma unsound_diff_refuted : exists cs old new, old_of cs = old /\ new_of cs <> new /\ has_cr old = false /\
+  apply_edits old (gte rk_new cs) <> Some new.
+Proof.
+  exists [Equal [97]%N; Insert [128512; 10]%N; Delete [128512; 129408]%N], [97; 128512; 129408]%N, [97; 128512; 10; 129408]%N.
+  repeat split; try reflexivity; vm_compute; discriminate.
 Qed.
